@@ -250,6 +250,7 @@ class ProxyClient(object):
     def send_produce_request(self, payloads=None, acks=1, timeout=1000, fail_on_error=True, callback=None):
         payloads = list(payloads)
         self.calls.append(ClientCall(None, payloads, self.loads))
+        self.calls[-1].t0 = self._real.reactor.seconds()
         d = self._real.send_produce_request(payloads=payloads, acks=acks, timeout=timeout,
                                             fail_on_error=fail_on_error, callback=callback)
         tr = self._tracer
